@@ -4,6 +4,6 @@ check("C19", "model_checking",
       "replayed on the real receptor binary submitting remote work (values are unique random markers; every byte received on every control connection and "
       "the daemon log are searched for secret markers; non-secret parameters must be reported verbatim, also after reload from disk); a secret without a "
       "TLS profile must be refused with no unit, no directory, nothing on the other node and no control-service data message on the harness-owned relays.",
-      "Submit outcome classes accepted / refused-before-allocation / failed-after-allocation (malformed ttl: the allocated unit stays, without a recorded TLS profile) / crashed between the allocation steps are modelled and replayed, with a concurrent lister during all submissions. Quick replays a seeded sample (450 plain-submit histories, 4 crash histories, all other variants), thorough everything. Mesh traffic is QUIC-encrypted, so 'nothing sent' is judged by message headers and by the other node's unit list rather than by payload bytes. "
+      "Submit outcome classes accepted / refused-before-allocation / failed-after-allocation (malformed ttl: the allocated unit stays, without a recorded TLS profile) / crashed between the allocation steps / refused by the executing node on the first connection (the error text is returned and kept as Detail) are modelled and replayed, with a concurrent lister during all submissions. Quick replays a seeded sample (450 plain-submit histories, 4 crash histories, all other variants), thorough everything. Mesh traffic is QUIC-encrypted, so 'nothing sent' is judged by message headers and by the other node's unit list rather than by payload bytes. "
       "Key spellings per class are sampled. Status files on disk keep secrets by design and are outside the property.",
       "TLA+ history model, TLC exhaustive exploration, history replay into real daemons (B1)", "E3 daemon (harness/ctl, cmd/vctl)", "DESIGN.md section 6 C19")
